@@ -169,7 +169,7 @@ theorem shortcut_sound (i : Info) (f : Frame) (hg : Good i) (hgc : GoodC i) (hl 
     checkDataframe i f = (i, none) ∧ (i.strict = true → f.empty = false → Spec.Cons ⟨i, f⟩) := by
   refine ⟨by simp [checkDataframe, hl], ?_⟩
   intro hs he
-  exact cons_of i f (hg.keysOk f hl he) (hgc f hl he hs)
+  exact cons_of i f (hg.keysOk f hl (Or.inl he)) (hgc f hl he hs)
 
 /-- why emptiness has to be part of the remembered state: a `text`-labelled float column validated while the
     frame had no rows (all checks skipped) is *not* consistent once a row exists, although names and dtypes are
@@ -190,7 +190,7 @@ theorem cons_after_check (i i' : Info) (f : Frame) (hg : Good i) (hgc : GoodC i)
   have hst := checkDataframe_strict i f
   rw [h] at hg' hgc' hst
   have hl := checkDataframe_ok_last i i' f h
-  exact cons_of i' f (hg'.keysOk f hl he) (hgc' f hl he (by simp only at hst; rw [hst]; exact hs))
+  exact cons_of i' f (hg'.keysOk f hl (Or.inl he)) (hgc' f hl he (by simp only at hst; rw [hst]; exact hs))
 
 /-! ## every operation that is not an excluded relabelling preserves the invariant -/
 
@@ -434,7 +434,10 @@ theorem revalidation_restores (i i' : Info) (f : Frame) (hnd : (keys i.reg).Nodu
       have hnd' := updateColumns_nodup i.strict i.reg f hnd
       rw [hu] at hnd'
       refine ⟨⟨hnd', ?_⟩, ?_, ?_⟩
-      · intro f0 hf0 he; simp at hf0; subst hf0; exact updateColumns_ok_keys _ _ _ _ hu he
+      · intro f0 hf0 he; simp at hf0; subst hf0
+        rcases he with he | he
+        · exact updateColumns_ok_keys _ _ _ _ hu he
+        · exact updateColumns_ok_keys_nocols _ _ _ _ hu he
       · intro f0 hf0 he hs
         simp at hf0 hs; subst hf0
         rw [hs] at hu
